@@ -463,6 +463,11 @@ def discharge(ob, timeout_ms=10000, extra=(), nice=None, sizes=None):
         r1 = s1.check()
         if r1 != z3.unknown:
             break
+        if seed == 0 and poly_identity(ob, qf):
+            ob.status = 'discharged'
+            ob.backend = 'sympy-%s polynomial identity + %s (divisors non-zero)' % (__import__('sympy').__version__, ob.backend)
+            ob.seconds = time.time() - t0
+            return ob.status
     if r1 == z3.unsat:
         ob.status = 'discharged'
     else:
@@ -513,11 +518,106 @@ def discharge(ob, timeout_ms=10000, extra=(), nice=None, sizes=None):
                         ob.model = m2
                 except Exception:
                     pass
+        elif poly_identity(ob, qf):
+            ob.status = 'discharged'
+            ob.backend = 'sympy-%s polynomial identity + %s (divisors non-zero)' % (__import__('sympy').__version__, ob.backend)
         else:
             ob.status = 'unknown'
             ob.info['reason'] = s1.reason_unknown()
     ob.seconds = time.time() - t0
     return ob.status
+
+
+def poly_identity(ob, qf, timeout_ms=4000):
+    """Second back end for goals that are an equation between rational functions of real terms (interpolation /
+    Lagrange algebra): z3's nlsat often times out on such identities with many variables.  Sound decision:
+      * the goal's consequent  A == B  is converted to SymPy (every uninterpreted application / constant is an
+        indeterminate; only + - * / and rational numerals are accepted, anything else aborts);
+      * every divisor (each factor of a product divisor separately) is shown non-zero under the hypotheses by z3;
+      * numerator(A - B), expanded over the rationals, is the zero polynomial.
+    Then A == B holds for all values satisfying the hypotheses.  Returns True only in that case."""
+    try:
+        import sympy
+    except Exception:
+        return False
+    goal = ob.goal
+    while z3.is_implies(goal):
+        goal = goal.arg(1)
+    if not (z3.is_eq(goal) and z3.is_real(goal.arg(0)) and z3.is_real(goal.arg(1))):
+        return False
+    syms = {}
+    divisors = []
+
+    class Abort(Exception):
+        pass
+
+    def conv(e):
+        if z3.is_rational_value(e):
+            return sympy.Rational(e.numerator_as_long(), e.denominator_as_long())
+        if z3.is_int_value(e):
+            return sympy.Integer(e.as_long())
+        if not z3.is_app(e):
+            raise Abort()
+        k = e.decl().kind()
+        ch = e.children()
+        if k == z3.Z3_OP_ADD:
+            return sympy.Add(*[conv(c) for c in ch])
+        if k == z3.Z3_OP_MUL:
+            return sympy.Mul(*[conv(c) for c in ch])
+        if k == z3.Z3_OP_SUB:
+            r = conv(ch[0])
+            for c in ch[1:]:
+                r = r - conv(c)
+            return r
+        if k == z3.Z3_OP_UMINUS:
+            return -conv(ch[0])
+        if k == z3.Z3_OP_DIV:
+            divisors.append(ch[1])
+            return conv(ch[0]) / conv(ch[1])
+        if k == z3.Z3_OP_TO_REAL:
+            return conv(ch[0])
+        if k == z3.Z3_OP_UNINTERPRETED:
+            # an indeterminate per distinct term (arguments must themselves be ground index terms)
+            key = e.sexpr()
+            if key not in syms:
+                syms[key] = sympy.Symbol('v%d' % len(syms))
+            return syms[key]
+        raise Abort()
+    try:
+        A, B = conv(goal.arg(0)), conv(goal.arg(1))
+    except Abort:
+        return False
+    except Exception:
+        return False
+    # divisors non-zero under the hypotheses (factor by factor)
+    factors = []
+    for d in divisors:
+        if z3.is_app(d) and d.decl().kind() == z3.Z3_OP_MUL:
+            factors.extend(d.children())
+        else:
+            factors.append(d)
+    seen = set()
+    for f in factors:
+        if f.get_id() in seen:
+            continue
+        seen.add(f.get_id())
+        if z3.is_rational_value(f) or z3.is_int_value(f):
+            if f.numerator_as_long() == 0 if z3.is_rational_value(f) else f.as_long() == 0:
+                return False
+            continue
+        sv = solver_for(timeout_ms)
+        sv.add(*qf)
+        sv.add(f == 0)
+        if sv.check() != z3.unsat:
+            return False
+    try:
+        num, _den = sympy.fraction(sympy.together(A - B))
+        if sympy.expand(num) != 0:
+            return False
+    except Exception:
+        return False
+    ob.info['identity'] = 'rational-function identity over %d indeterminates, %d divisor factors shown non-zero by z3' % (len(syms), len(seen))
+    return True
 
 
 def _has_quant(e):
